@@ -45,13 +45,29 @@ def tus(tier, seed):
     FT = {'f32': 'float', 'f64': 'double', 'f80': 'long double'}
     fc = [('nrst', 'sat', 5, 0, 'f64'), ('nrst', 'sat', 31, 0, 'f32'), ('nrst', 'thr', 60, 0, 'f64'), ('tpi', 'sat', 10, -4, 'f32'),
           ('ninf', 'trp', 16, -8, 'f64'), ('nat', 'sat', 20, 3, 'f32'), ('nrst', 'sat', 24, -12, 'f80'), ('nrst', 'trp', 8, 0, 'f32')]
-    body = '#include "%s"\nint main(){ install(); Rng rng(seed_from_env()+777);\n' % (__file__.replace('.py', '.h'))
-    for (r, o, d, e, f) in fc:
-        body += '  fromf<%s, %s, %d, %d, %s>(rng);\n' % (RT[r], OT[o], d, e, FT[f])
-    body += '}\n'
-    res.append(dict(name='C11_fromf', src=body, compiler='g++'))
+    # digit counts at, just below and just above what each floating format holds (24 / 53 / 64 digits): above it the
+    # declared limit 2^D - 1 rounds to 2^D in the source format (the repaired boundary); tags rotate with the seed
+    rts, ots = list(RT), list(OT)
+    k = seed
+    for f, ds in (('f32', [23, 24, 25, 31, 40, 63]), ('f64', [31, 52, 53, 54, 63]), ('f80', [31, 62, 63])):
+        for d in ds:
+            for e in ([0] if d in (40, 52, 62) else [0, -3]):
+                c = (rts[k % 4], ots[(k // 2) % 3], d, e, f)
+                k += 1
+                if c not in fc:
+                    fc.append(c)
+    per = 8
+    for i in range(0, len(fc), per):
+        body = '#include "%s"\nint main(){ install(); Rng rng(seed_from_env()+%d);\n' % (__file__.replace('.py', '.h'), 777 + i)
+        for (r, o, d, e, f) in fc[i:i + per]:
+            body += '  fromf<%s, %s, %d, %d, %s>(rng);\n' % (RT[r], OT[o], d, e, FT[f])
+        body += '}\n'
+        res.append(dict(name='C11_fromf' + ('' if i == 0 else '_%d' % (i // per)), src=body,
+                        compiler='clang++' if (tier == 'thorough' and (i // per) % 2 == 1) else 'g++'))
     return res
 
 
 RULE = ("per compiled (rounding tag, overflow tag, three (digits, exponent) formats): all values when digits <= 5, otherwise the boundary lattice of "
-        "the declared range plus seeded random values, cross-multiplied for binary operators and two-step histories; non-trivial = divisor non-zero")
+        "the declared range plus seeded random values, cross-multiplied for binary operators and two-step histories; construction from floating point: "
+        "digit counts at, below and above the 24 / 53 / 64 digits the formats hold, the declared limits and the powers of two they round to with "
+        "+-1, +-2 ulp and fractional neighbours; non-trivial = divisor non-zero")
